@@ -92,7 +92,7 @@ struct Builder<'a> {
 
 const LABEL_POOL: &[&[u8]] = &[
     b"a", b"b", b"com", b"net", b"example", b"www", b"ns1", b"mail", b"x-y", b"_tcp", b"xn--bcher",
-    b"0", b"123", b"z9", b"ORG", b"Example", b"CoM", b"sub", b"deep", b"k",
+    b"0", b"123", b"z9", b"ORG", b"Example", b"CoM", b"sub", b"deep", b"k", b"a@b", b"[x]", b"n^2", b"\xc3\x89t\xc3\x89",
 ];
 
 fn ok_label_byte(rng: &mut Rng) -> u8 {
@@ -331,6 +331,14 @@ impl<'a> Builder<'a> {
             T_AAAA => {
                 let mut a = [0u8; 16];
                 a.copy_from_slice(&self.rng.bytes(16));
+                match self.rng.below(8) {
+                    // addresses with a special textual / canonical form are 16 opaque bytes like any other
+                    0 => a = [0, 0, 0, 0, 0, 0, 0, 0, 0, 0, 0xff, 0xff, a[12], a[13], a[14], a[15]], // ::ffff:a.b.c.d
+                    1 => a = [0, 0, 0, 0, 0, 0, 0, 0, 0, 0, 0, 0, a[12], a[13], a[14], a[15]],       // ::a.b.c.d
+                    2 => a = [0, 0x64, 0xff, 0x9b, 0, 0, 0, 0, 0, 0, 0, 0, a[12], a[13], a[14], a[15]], // 64:ff9b::/96
+                    3 => a = [0; 16],
+                    _ => {}
+                }
                 self.buf.extend_from_slice(&a);
                 RData::Aaaa(a)
             }
